@@ -217,7 +217,7 @@ impl SignatureConverter<'_> {
         std::mem::swap(&mut params, &mut generics.params);
 
         // Bounds of a type parameter that mention a lifetime parameter of the fn
-        // stay on the method, as where predicates:
+        // (or the dependency's type parameter) stay on the method, as where predicates:
         let mut method_predicates: Vec<syn::WherePredicate> = vec![];
 
         for param in params.iter() {
@@ -252,10 +252,13 @@ impl SignatureConverter<'_> {
                         .bounds
                         .iter()
                         .filter(|bound| {
+                            let tokens = quote::ToTokens::to_token_stream(bound);
                             crate::analyze_generics::mentions_lifetime_param(
-                                quote::ToTokens::to_token_stream(bound),
+                                tokens.clone(),
                                 generics,
-                            )
+                            ) || deps_ident
+                                .map(|ident| crate::analyze_generics::mentions_ident(tokens, ident))
+                                .unwrap_or(false)
                         })
                         .collect();
                     if !bounds.is_empty() {
